@@ -95,7 +95,8 @@ def harness(u, g, arms, N, E, D):
 
 
 # the big nested message is thorough-only (its deep members need minutes per query); nsm is its small-field sibling
-QUICK_SKIP = ("nest",)
+import os
+QUICK_SKIP = () if os.environ.get("VERIF_NEST") else ("nest",)   # for the heavier setter/cursor checks (C01, C03, C04, C17, C19)
 
 
 def plan(ctx):
@@ -118,7 +119,6 @@ def build(ctx):
     for (xml, std, mode) in plan(ctx):
         sch, inc = hgen.gen_headers(ctx, xml)
         for msg in sch.messages:
-            if ctx.quick and msg.name in QUICK_SKIP: continue
             g = msggen.MG(sch, msg, G)
             u = ctx.lower("c02_%s_%s" % (sch.ns, msg.name), g.cpp_prelude() + g.cpp_getset(setters=False) + g.cpp_geom(mutators=False), std=std, mode=mode, incs=[inc])
             N = g.max_size(0, D) + 1
